@@ -1321,7 +1321,12 @@ def array_deepcopy(
     '''
     ident = id(array)
     if memo is not None and ident in memo:
-        return memo[ident]
+        post = memo[ident]
+        if post.ndim > 0 and post.flags.writeable and not array.flags.writeable:
+            # the array was already copied by another route (e.g. held bare next to its container in the copied structure): a container cannot share that writeable copy
+            post = post.copy()
+            post.flags.writeable = False
+        return post
 
     if array.dtype == DTYPE_OBJECT:
         post = deepcopy(array, memo)
